@@ -491,4 +491,214 @@ theorem sample_retried : ∃ st' outs, cleanupEntry (some ⟨0, []⟩) [] fiveMi
   cases ho; cases hv
   exact ⟨_, _, he, rfl, rfl⟩
 
+/-! ## Bounded lifetime: no aggregation entry lives forever -/
+
+/-- Remaining work of an entry: one settle step plus the unspent retries. -/
+def mu (st : VState) : Nat := (if st.settled then 0 else 1) + (maxRetries - st.retryCount)
+
+/-- From this time on every tick acts on the entry (settles, retries or deletes it). -/
+def dueAt (st : VState) : Int :=
+  match st.lastRetry with
+  | none => st.firstObserved + oneHour
+  | some lr => max (st.firstObserved + oneHour) (lr + retryTime)
+
+/-- Tick times never go back and consecutive ticks are at most `G` apart (the first at most `G` after `t`). -/
+def Gaps (G : Int) : Int → List (Int × Bool) → Prop
+  | _, [] => True
+  | t, (now, _) :: rest => t ≤ now ∧ now ≤ t + G ∧ Gaps G now rest
+
+/-- No tick can find the entry alive after this time. -/
+def deadline (G : Int) (st : VState) (t : Int) : Int :=
+  max t (dueAt st) + G + (mu st : Int) * (retryTime + G)
+
+private theorem succ_mul_int (m : Nat) (K : Int) : ((m + 1 : Nat) : Int) * K = (m : Int) * K + K := by
+  rw [Int.natCast_add, Int.add_mul]; simp
+
+private theorem dueAt_ge (st : VState) : st.firstObserved + oneHour ≤ dueAt st := by
+  unfold dueAt; cases st.lastRetry <;> simp only [Int.max_def] <;> (try split) <;> omega
+
+private theorem dueAt_ge2 (st : VState) (lr : Int) (h : st.lastRetry = some lr) : lr + retryTime ≤ dueAt st := by
+  unfold dueAt; rw [h]; simp only [Int.max_def]; split <;> omega
+
+local macro "maxomega" : tactic => `(tactic| (simp only [Int.max_def]; repeat' split) <;> omega)
+
+private theorem tick_progress (g : GSet) (db : List (VaaId × Bytes)) (G t now : Int) (room : Bool) (st st' : VState) (o : List Out)
+    (hG : 0 ≤ G) (ht : t ≤ now) (hn : now ≤ t + G)
+    (hb : st.retryCount ≤ maxRetries)
+    (h : cleanupEntry (some g) db now room st = .keep st' o) :
+    now ≤ deadline G st t ∧ deadline G st' now ≤ deadline G st t ∧ st'.retryCount ≤ maxRetries := by
+  have hK : 0 ≤ retryTime + G := by unfold retryTime; omega
+  have hR : 0 ≤ retryTime := by unfold retryTime; omega
+  have hmuK : ∀ m : Nat, 0 ≤ (m : Int) * (retryTime + G) := fun m => Int.mul_nonneg (Int.natCast_nonneg m) hK
+  have hD1 := dueAt_ge st
+  have hD2 := dueAt_ge2 st
+  unfold deadline
+  generalize hDg : dueAt st = D at *
+  unfold cleanupEntry at h
+  split at h
+  · cases h
+  · split at h
+    · -- settle
+      rename_i hs
+      unfold settleAct settleGs at h
+      have hst : st' = { st with settled := true } := by
+        cases hg : st.gs <;> rw [hg] at h <;> cases h <;> rfl
+      subst hst
+      have hmu : mu st = mu { st with settled := true } + 1 := by
+        unfold mu; simp [hs.1]; omega
+      have hd : dueAt { st with settled := true } = dueAt st := rfl
+      have := hmuK (mu { st with settled := true })
+      rw [hd, hmu, succ_mul_int]
+      refine ⟨?_, ?_, hb⟩
+      · maxomega
+      · maxomega
+    · split at h
+      · cases h
+      · split at h
+        · cases h
+        · rename_i hns hnsub hex
+          split at h
+          · -- retry
+            rename_i hdue
+            unfold retryAct at h
+            cases ho : st.ourMsg with
+            | none => rw [ho] at h; cases h
+            | some ob =>
+              rw [ho] at h
+              cases hv : st.ourVAA with
+              | none => rw [hv] at h; cases h
+              | some v =>
+                rw [hv] at h
+                cases h
+                have hlt : st.retryCount < maxRetries := by
+                  apply Nat.lt_of_not_le
+                  intro hge
+                  apply hex
+                  refine ⟨hdue.1, ?_⟩
+                  unfold exhausted
+                  simp [ho, hge]
+                have hmu : (if st.settled = true then 0 else 1) + (maxRetries - st.retryCount) =
+                    ((if st.settled = true then 0 else 1) + (maxRetries - (st.retryCount + 1))) + 1 := by omega
+                simp only [dueAt, mu]
+                rw [hmu, succ_mul_int]
+                have := hmuK ((if st.settled = true then 0 else 1) + (maxRetries - (st.retryCount + 1)))
+                generalize ((if st.settled = true then 0 else 1) + (maxRetries - (st.retryCount + 1))) = m at *
+                refine ⟨?_, ?_, ?_⟩
+                · maxomega
+                · maxomega
+                · omega
+          · -- idle
+            rename_i hidle
+            cases h
+            have hlt : now < D := by
+              apply Int.lt_of_not_ge
+              intro hge
+              have hage : now - st.firstObserved ≥ oneHour := by omega
+              have hsett : st.settled = true := by
+                cases hs : st.settled
+                · exfalso; apply hns; refine ⟨hs, ?_⟩; unfold settlementTime; unfold oneHour at hage; omega
+                · rfl
+              have hsub : st.submitted = false := by
+                cases hs : st.submitted
+                · rfl
+                · exfalso; exact hnsub ⟨hs, hage⟩
+              apply hidle
+              refine ⟨hsub, ?_, ?_⟩
+              · unfold fiveMinutes; unfold oneHour at hage; omega
+              · unfold retryDue
+                cases hl : st.lastRetry with
+                | none => rfl
+                | some lr =>
+                  simp only [decide_eq_true_eq]
+                  have := hD2 lr hl
+                  omega
+            have := hmuK (mu st)
+            rw [hDg]
+            refine ⟨?_, ?_, hb⟩
+            · maxomega
+            · maxomega
+
+/-- **No aggregation entry lives forever.** Follow any entry (whatever its flags, counters and recorded times) through any
+sequence of cleanup ticks whose times never go back and are at most `G` apart, the request queue full or not at each tick. If
+the entry is still there after the last tick, then every one of those ticks happened before the entry's `deadline` — a time fixed
+by the entry's state before the first tick: `max(start, first-seen + 1 h, last retry + 5 min) + G + (unspent retries + 1) · (5 min + G)`.
+Hence ticks that keep coming delete every entry; with the 30-second ticker a fresh entry is gone at the latest
+`1 h + 30 s + 14 401 · 5.5 min` after it was first seen (`fresh_entry_deadline`). -/
+theorem lifetime_bounded (g : GSet) (db : List (VaaId × Bytes)) (G : Int) (hG : 0 ≤ G) :
+    ∀ (ticks : List (Int × Bool)) (st st' : VState) (t : Int), st.retryCount ≤ maxRetries → Gaps G t ticks →
+      runTicks g db st ticks = some st' → ∀ p ∈ ticks, p.1 ≤ deadline G st t := by
+  intro ticks
+  induction ticks with
+  | nil => intro st st' t _ _ _ p hp; cases hp
+  | cons tk rest ih =>
+    intro st st' t hb hgaps hrun p hp
+    obtain ⟨now, room⟩ := tk
+    obtain ⟨ht, hn, hrest⟩ := hgaps
+    unfold runTicks at hrun
+    split at hrun
+    · rename_i st1 o hk
+      obtain ⟨a, b, c⟩ := tick_progress g db G t now room st st1 o hG ht hn hb hk
+      cases hp with
+      | head => exact a
+      | tail _ hp' =>
+        have := ih st1 st' now c hrest hrun p hp'
+        omega
+    · cases hrun
+
+/-- … so a tick after the deadline finds the entry gone (deleted by that tick or an earlier one). `runTicks` is `none` also
+when a tick panics; with the current set known (`some g`) that needs `ourMsg` without `ourVAA`, which the C13 invariant
+excludes (`tick_no_panic`). -/
+theorem deleted_by_deadline (g : GSet) (db : List (VaaId × Bytes)) (G : Int) (hG : 0 ≤ G)
+    (ticks : List (Int × Bool)) (st : VState) (t : Int) (hb : st.retryCount ≤ maxRetries) (hgaps : Gaps G t ticks)
+    (hp : ∃ p ∈ ticks, deadline G st t < p.1) : runTicks g db st ticks = none := by
+  cases hr : runTicks g db st ticks with
+  | none => rfl
+  | some st' =>
+    obtain ⟨p, hp, hlt⟩ := hp
+    have := lifetime_bounded g db G hG ticks st st' t hb hgaps hr p hp
+    omega
+
+theorem tick_no_panic (g : GSet) (db : List (VaaId × Bytes)) (now : Int) (room : Bool) (st : VState)
+    (hinv : ∀ o, st.ourMsg = some o → ∃ v, st.ourVAA = some v) :
+    ∀ site, cleanupEntry (some g) db now room st ≠ .panic site := by
+  intro site h
+  unfold cleanupEntry at h
+  split at h
+  · cases h
+  · split at h
+    · unfold settleAct settleGs at h
+      cases hg : st.gs <;> rw [hg] at h <;> cases h
+    · split at h
+      · cases h
+      · split at h
+        · cases h
+        · split at h
+          · unfold retryAct at h
+            cases ho : st.ourMsg with
+            | none => rw [ho] at h; cases h
+            | some ob =>
+              obtain ⟨v, hv⟩ := hinv ob ho
+              rw [ho, hv] at h
+              cases h
+          · cases h
+
+/-- Non-vacuity: signatures parked for a message the node never saw, first seen at time 0; ticks at 1 h and 1 h 30 s
+(30 s apart, starting 30 s after 59 min 30 s): the first settles the entry, the second deletes it. -/
+example : Gaps 30000000000 3570000000000 [(3600000000000, true), (3630000000000, false)] ∧
+    runTicks ⟨0, []⟩ [] { firstObserved := 0 } [(3600000000000, true)] ≠ none ∧
+    runTicks ⟨0, []⟩ [] { firstObserved := 0 } [(3600000000000, true), (3630000000000, false)] = none := by
+  refine ⟨by simp [Gaps], by decide, by decide⟩
+
+/-- The deadline of a freshly created entry under the 30-second ticker. -/
+theorem fresh_entry_deadline (f : Int) (st : VState) (hf : st.firstObserved = f) (hs : st.settled = false)
+    (hr : st.retryCount = 0) (hl : st.lastRetry = none) :
+    deadline (Whv.Gen.Proc.cleanupTickNs : Int) st f = f + (3600 + 30 + 14401 * 330) * 1000000000 := by
+  unfold deadline dueAt mu
+  rw [hl, hs, hr, hf]
+  simp only [Whv.Gen.Proc.cleanupTickNs, oneHour, retryTime, maxRetries]
+  have e : (((if false = true then 0 else 1) + (14400 - 0) : Nat) : Int) = 14401 := by decide
+  rw [e]
+  simp only [Int.max_def]
+  split <;> omega
+
 end Whv.C14
